@@ -464,7 +464,8 @@ pub fn gen_model(rng: &mut Rng) -> QpModel {
             types.push((i, if vkind == 'M' { *rng.pick(&[0u8, 2]) } else { rng.below(3) as u8 }));
         }
     }
-    let names = ["x", "x_1", "flow[1,2]", "y", "QPVAR", "17", "z.z"];
+    // incl. non-ASCII names, names that look like comments or numbers
+    let names = ["x", "x_1", "flow[1,2]", "y", "QPVAR", "17", "z.z", "変数", "naïve", "x#1", "a!b", "1e5", "-3"];
     let mut var_names = vec![];
     for i in 0..nvars {
         if rng.chance(1, 3) {
@@ -474,7 +475,7 @@ pub fn gen_model(rng: &mut Rng) -> QpModel {
     let mut con_names = vec![];
     for i in 0..ncons {
         if rng.chance(1, 3) {
-            con_names.push((i, format!("con{}", i)));
+            con_names.push((i, format!("{}{}", rng.pick(&["con", "制約", "c%", "R_"]), i)));
         }
     }
     QpModel {
